@@ -511,6 +511,19 @@ func paddedRequest(r *rand.Rand, ks *keyset) *request {
 	return newReq("valid/whitespace-padded", "POST", body, expectValid, h)
 }
 
+// hugeRequest: a valid batch padded to 9-12 MB, or as much garbage.
+func hugeRequest(r *rand.Rand, ks *keyset, valid bool) *request {
+	n := (9 + r.Intn(4)) << 20
+	if !valid {
+		return newReq("malformed/huge-garbage", "POST", bytes.Repeat([]byte("x"), n), expectMalformed, nil)
+	}
+	doc, h := validDoc(r, ks)
+	b := ref.MustJSON(doc)
+	cut := bytes.IndexByte(b, ',') + 1
+	body := append(append(append([]byte{}, b[:cut]...), bytes.Repeat([]byte(" "), n)...), b[cut:]...)
+	return newReq("valid/huge-whitespace-padded", "POST", body, expectValid, h)
+}
+
 // extraFieldRequest: unknown fields are ignored; a valid batch stays valid.
 func extraFieldRequest(r *rand.Rand, ks *keyset) *request {
 	doc, h := validDoc(r, ks)
